@@ -1,5 +1,15 @@
 (* C20 — the property's own specification, independent of how the code computes (relational definitions made
-   executable as boolean checkers over an observation).  Definitions only. *)
+   executable as boolean checkers over an observation).  Definitions only.
+   What this file takes from Model.v (round-5 audit; everything else is defined here):
+     - types: outcome (ORet / OErr), trafo, chan_cfg, wf_obs, sampled; result plumbing all_ok, map_out;
+     - arithmetic helpers that are formulas, not routines: w_end (begin + length), vscale ((2^res - 1) / (2 amp)), vsum / zero_row
+       (componentwise sum of rows);
+     - b64 / grid_time (spec_times only): "the binary64 number nearest to the exact rational k / rate".  It is a rounding
+       function, not a model of get_sample_times (that is grid_impl / grid_old / sample_times, which are NOT used here); its
+       meaning is fixed by theorem C20_b64_is_RN (= Flocq's round radix2 (FLT_exp (-1074) 53) ZnearestE) and cross-checked on every
+       run by the Python oracle float(Fraction(k) / rate).
+   NOT used: rint (nearest_even / is_floor are relational), code1, conv, conv64, sort_w, shrink_*, avg_*, waveform_length,
+   sample_times, sampled_channel / sampled_marker, not_none_indices, the flat memory. *)
 From Coq Require Import ZArith QArith Qround Qabs Bool List.
 Require Import QV.common.Util QV.C20.Model.
 Import ListNotations.
@@ -187,8 +197,9 @@ Fixpoint spec_nni {A} (seen : list (option A)) (rest : list (option A)) (obs : l
    (Model.grid_time: ONE rounding of the exact quotient; Model.b64 is proved equal to Flocq's round-to-nearest-even in
    ProofsGrid.v, and the Python oracle evaluates it independently as float(Fraction(k) / rate)).  For dyadic rates and
    small k this is k / rate itself (the round-1..3 clause `t * rate = k`). *)
+Definition spec_tolerance : Q := (1 # 10000000000)%Q.      (* 1e-10 samples: the tolerance get_waveform_length documents *)
 Definition spec_len (rate dur : Q) (n : Z) : bool :=
-  Qle_bool (Qabs (dur * rate - inject_Z n)) len_tolerance && (0 <? n).
+  Qle_bool (Qabs (dur * rate - inject_Z n)) spec_tolerance && (0 <? n).
 Definition no_len (rate dur : Q) : bool :=
   (* no positive integer within the tolerance: the two candidates are floor and floor + 1 *)
   let f := Qfloor (dur * rate) in negb (spec_len rate dur f) && negb (spec_len rate dur (f + 1)).
@@ -209,29 +220,52 @@ Definition spec_times (rate : Q) (durs : list Q) (obs : outcome (list Q * list Z
   end.
 
 (* ------------------------------------------------------------------------------------------------------------ *)
-(* ProgramEntry sampling: for waveform w and channel slot (ch, T, amp, off): (T (w ch (k / rate)) - off) / amp for
-   k = 0 .. n_w - 1; marker slot ch: w ch (k / rate) <> 0.  No flat memory here. *)
+(* ProgramEntry sampling, written from the statement alone (round 5: no operational-model function is used here; `outcome`,
+   `all_ok`, `map_out` are the result-type helpers, `trafo` / `chan_cfg` / `wf_obs` the input types):
+     - a waveform of duration d has n samples, n the positive integer with |d * rate - n| <= tolerance (spec_length: the two
+       candidates are floor and floor + 1; at most one qualifies because the tolerance is below 1/2);
+     - output slot (ch, T, amp, off):   (T (w ch (k / rate)) - off) / amp   for k = 0 .. n - 1;
+     - marker slot ch:                   w ch (k / rate) <> 0;
+     - empty slot: nothing; an undefined channel / fewer than n known values / a bad duration: error.
+   w ch (k / rate) is entry k of the channel's value list in the observed waveform.  No flat memory here. *)
+Definition spec_length (rate dur : Q) : outcome Z :=
+  let f := Qfloor (dur * rate) in
+  if spec_len rate dur f then ORet f else if spec_len rate dur (f + 1) then ORet (f + 1) else OErr.
+
+Definition spec_trafo (T : trafo) (x : Q) : Q :=
+  match T with TNone => x | TAffine a b => (a * x + b)%Q | TSquare => (x * x)%Q end.
+
+(* the first n values of channel ch *)
+Definition spec_raw (n : nat) (wf : wf_obs) (ch : Z) : outcome (list Q) :=
+  match find (fun p : Z * list Q => fst p =? ch) (snd wf) with
+  | None => OErr
+  | Some p => if (n <=? length (snd p))%nat then ORet (firstn n (snd p)) else OErr
+  end.
+Definition spec_chan_values (n : nat) (wf : wf_obs) (c : chan_cfg) : outcome (list Q) :=
+  let '(ch, T, amp, off) := c in map_out (map (fun x => ((spec_trafo T x - off) / amp)%Q)) (spec_raw n wf ch).
+Definition spec_marker_values (n : nat) (wf : wf_obs) (ch : Z) : outcome (list bool) :=
+  map_out (map (fun x => negb (Qeq_bool x 0))) (spec_raw n wf ch).
+
+Definition spec_slot {A B} (f : A -> outcome B) (s : option A) : outcome (option B) :=
+  match s with None => ORet None | Some a => map_out Some (f a) end.
+
 Definition spec_sample_one (chans : list (option chan_cfg)) (markers : list (option Z)) (wl : wf_obs * Z)
   : outcome sampled :=
-  let '(wf, len) := wl in
-  let n := Z.to_nat len in
-  let cs := map (fun c : option chan_cfg => match c with
-                         | None => ORet None
-                         | Some cfg => match sampled_channel n wf cfg with ORet xs => ORet (Some xs) | OErr => OErr end
-                         end) chans in
-  let ms := map (fun c : option Z => match c with
-                         | None => ORet None
-                         | Some ch => match sampled_marker n wf ch with ORet xs => ORet (Some xs) | OErr => OErr end
-                         end) markers in
-  match all_ok cs, all_ok ms with
+  let n := Z.to_nat (snd wl) in
+  match all_ok (map (spec_slot (spec_chan_values n (fst wl))) chans),
+        all_ok (map (spec_slot (spec_marker_values n (fst wl))) markers) with
   | ORet c, ORet m => ORet (c, m)
   | _, _ => OErr
   end.
+(* _sample_waveforms itself demands at least one waveform *)
 Definition spec_sample (chans : list (option chan_cfg)) (markers : list (option Z)) (rate : Q) (wfs : list wf_obs)
   : outcome (list sampled) :=
-  match sample_times rate (map fst wfs) with
-  | OErr => OErr
-  | ORet (_, lens) => all_ok (map (spec_sample_one chans markers) (combine wfs lens))
+  match wfs with
+  | [] => OErr
+  | _ => match all_ok (map (fun wf : wf_obs => spec_length rate (fst wf)) wfs) with
+         | OErr => OErr
+         | ORet lens => all_ok (map (spec_sample_one chans markers) (combine wfs lens))
+         end
   end.
 
 (* an entry without waveforms holds no samples *)
